@@ -19,7 +19,9 @@
     `workerReady i` (`readyPacket`: response on the `responses` channel, then `working.Done()`).
     `cmdTake / cmdHandle / cmdReady` likewise for the single sequential command worker.
   * controller goroutine: `ctlTakeReq`, `ctlTakeResp` (append, Sort, maybeSendPackets), `ctlFini` (the
-    `<-s.fini` branch of the select: may fire while the other two channels still hold packets).
+    `<-s.fini` branch of the select: may fire while the other two channels still hold packets; with
+    `drainOnFini` it first drains them and sends, see `drainState`).  `controllerStopped` is what
+    `pktMgr.wait()` in the Serve functions waits for.
 
   Abstractions (all in the sound direction for safety properties = they only ADD schedules)
   * every channel is unbounded (the real ones have capacity SftpServerWorkerCount, cmdChan has capacity 0);
@@ -87,12 +89,21 @@ structure PipeCfg where
   sortOutgoing : Bool
   /-- SftpServerWorkerCount -/
   workers : Nat
+  /-- controller, `case <-s.fini:` first takes everything still queued on `requests` / `responses`
+  (non-blocking loop, append + Sort), runs maybeSendPackets once more and only then returns; the Serve functions
+  wait for the controller to exit (`pktMgr.wait()`).  `false` = the pinned behaviour: plain `return`.
+  (Has a default so that a configuration written without it still type-checks.) -/
+  drainOnFini : Bool := false
   deriving DecidableEq, Repr
 
 /-- The pipeline as it is in the source today. -/
 def PipeCfg.current : PipeCfg :=
   { poolKinds := [.rw], closeWaits := true, registerBeforeHandoff := true, headMatch := true,
-    sortIncoming := true, sortOutgoing := true, workers := 8 }
+    sortIncoming := true, sortOutgoing := true, workers := 8, drainOnFini := true }
+
+/-- The pipeline as it was at the pinned commit (before the repair of F5): the controller returned on `fini`
+without draining its channels. -/
+def PipeCfg.pinned : PipeCfg := { PipeCfg.current with drainOnFini := false }
 
 structure State where
   /-- ghost: every request received so far, in arrival order (its length is `packetCount`) -/
@@ -240,8 +251,24 @@ def dispatcherShutdownStep (s : State) : Option State :=
     some { s with finiClosed := true }
   else none
 
-def ctlFiniStep (s : State) : Option State :=
-  if s.finiClosed = true ∧ s.controllerStopped = false then some { s with controllerStopped := true } else none
+/-- The drain loop of the repaired `fini` branch followed by its maybeSendPackets: every queued request and
+response is appended (and sorted in) WITHOUT sending in between, then the send loop runs once.  When `fini` is
+closed nobody can send on the two channels any more (input closed, pktChan empty, WaitGroup counter 0), so
+their contents are fixed and taking them all in one step is exact; the two lists are independent, so the order in
+which the inner `select` alternates between the channels does not matter. -/
+def drainState (cfg : PipeCfg) (s : State) : State :=
+  applySend cfg
+    { s with reqInbox := [], respInbox := [],
+             incoming := s.reqInbox.foldl
+               (fun acc r => if cfg.sortIncoming then insertBy OReq.oid r acc else acc ++ [r]) s.incoming,
+             outgoing := s.respInbox.foldl
+               (fun acc p => if cfg.sortOutgoing then insertBy Resp.oid p acc else acc ++ [p]) s.outgoing }
+
+def ctlFiniStep (cfg : PipeCfg) (s : State) : Option State :=
+  if s.finiClosed = true ∧ s.controllerStopped = false then
+    if cfg.drainOnFini then some { drainState cfg s with controllerStopped := true }
+    else some { s with controllerStopped := true }
+  else none
 
 def step (cfg : PipeCfg) (s : State) (a : Action) : Option State :=
   if s.panicked then none
@@ -258,7 +285,7 @@ def step (cfg : PipeCfg) (s : State) (a : Action) : Option State :=
     | .ctlTakeResp => ctlTakeRespStep cfg s
     | .closeInput => closeInputStep s
     | .dispatcherShutdown => dispatcherShutdownStep s
-    | .ctlFini => ctlFiniStep s
+    | .ctlFini => ctlFiniStep cfg s
 
 def run (cfg : PipeCfg) : State → List Action → Option State
   | s, [] => some s
